@@ -37,6 +37,7 @@ def must_see(tier):
     for s in SCENARIOS:
         m['scenario:' + s] = 5
     m['third-transaction'] = 200
+    m['persistent-values'] = 30
     return m
 
 
@@ -236,9 +237,26 @@ def net_changes(base, after):
     return t
 
 
+def nv(v):
+    """Persistent values compare by identity; each connection has its own
+    object for one oid: compare them by oid."""
+    oid = getattr(v, '_p_oid', None)
+    if oid is not None and type(v).__name__ == 'Length':
+        return ('P', oid)
+    return v
+
+
+def ncontents(lst, is_mapping):
+    if not is_mapping or lst is None:
+        return lst
+    return [(k, nv(v)) for k, v in lst]
+
+
 def as_dict(model):
     if isinstance(model, RefMap):
-        return dict(model.d)
+        return {k: nv(v) for k, v in model.d.items()}
+    if isinstance(model, dict):
+        return {k: nv(v) for k, v in model.items()}
     return {k: None for k in model.s}
 
 
@@ -256,6 +274,20 @@ def run_schedule(fam, kind, impl, rng, rec, idx):
                                universe=uni, values=vals,
                                steps=rng.randint(5, 80))
     base = ls.m
+    # every third object-valued mapping: some values are persistent objects
+    # of their own (the commonest use of a BTree).  During conflict
+    # resolution they appear as PersistentReference stand-ins that refuse to
+    # be compared with a different reference.
+    pv_objs = []
+    if fam.vc == 'O' and is_mapping and idx % 3 == 1 and len(base) > 0:
+        from BTrees.Length import Length
+        ks_ = base.sorted_keys()
+        for i_, k_ in enumerate(rng.sample(ks_, min(len(ks_), 4))):
+            L_ = Length(i_)
+            ls.c[k_] = L_
+            base.d[k_] = L_
+            pv_objs.append(L_)
+        rec.ev('persistent-values')
     storage = minidb.Storage()
     connA = minidb.Connection(storage, impl)
     connA.log_events = False
@@ -264,6 +296,11 @@ def run_schedule(fam, kind, impl, rng, rec, idx):
     if w0.errors:
         return
     connA.commit()
+    pv_oids = [o._p_oid for o in pv_objs]
+    vals_tx = list(vals)
+    if pv_objs:
+        vals_tx = vals_tx[:3] + [('PV', i_) for i_ in range(
+            len(pv_oids) + 2)] * 2
     if w0.height >= 3:
         rec.ev('height>=3')
     scen = rng.choice(SCENARIOS)
@@ -281,8 +318,25 @@ def run_schedule(fam, kind, impl, rng, rec, idx):
         import random as _random
         ops = gen_tx(fam, kind,
                      _random.Random(scen_seed) if scen == 'same-key' else rng,
-                     scen, roles3[t], w0, set(base._keys()), uni, vals,
+                     scen, roles3[t], w0, set(base._keys()), uni, vals_tx,
                      sizes[0])
+        if pv_objs:
+            pvcache = {}
+
+            def real(v, conn=conn, pvcache=pvcache):
+                if isinstance(v, tuple) and len(v) == 2 and v[0] == 'PV' \
+                        and isinstance(v[1], int):
+                    if v[1] not in pvcache:
+                        from BTrees.Length import Length
+                        pvcache[v[1]] = conn.get(pv_oids[v[1]]) \
+                            if v[1] < len(pv_oids) else Length(1000 + v[1])
+                    return pvcache[v[1]]
+                if isinstance(v, tuple):
+                    return tuple(real(x) for x in v)
+                if isinstance(v, list):
+                    return [real(x) for x in v]
+                return v
+            ops = [(op_, real(args_)) for op_, args_ in ops]
         model = base.copy()
         # a few pure reads first: they must not declare dependencies
         for _ in range(rng.randint(0, 2)):
@@ -377,7 +431,12 @@ def run_schedule(fam, kind, impl, rng, rec, idx):
             outcome = 'read-conflict'
         else:
             outcome = 'conflict:%s' % (e.reason,)
-            if e.reason is None:
+            if e.reason is None and pv_objs and \
+                    'PersistentReferences' in str(e.detail):
+                # two different persistent values met in a comparison: ZODB
+                # turns whatever the resolver raises into a conflict
+                outcome = 'conflict:ref-compare'
+            elif e.reason is None:
                 rec.violation('conflict-resolution-raised-other', detail=brief(
                     e.detail, 300), b_ops=brief(B['ops']),
                     c_ops=brief(C['ops']), **desc)
@@ -391,7 +450,7 @@ def run_schedule(fam, kind, impl, rng, rec, idx):
     d = connD.get(root_oid)
     errs = []
     try:
-        got = harness.contents(d, is_mapping)
+        got = ncontents(harness.contents(d, is_mapping), is_mapping)
     except Exception as e:
         got = None
         errs.append(('contents-raised', '%s: %s' % (type(e).__name__, e)))
@@ -405,9 +464,9 @@ def run_schedule(fam, kind, impl, rng, rec, idx):
     if errs:
         rec.violation('stored-tree-damaged', errors=errs[:3], **info)
         return
-    basec = base.contents()
+    basec = ncontents(base.contents(), is_mapping)
     if outcome.startswith(('conflict', 'read-conflict')):
-        want = [B['model'].contents()]
+        want = [ncontents(B['model'].contents(), is_mapping)]
     else:
         # (1) C's operations executed after B's
         serial = B['model'].copy()
@@ -415,7 +474,7 @@ def run_schedule(fam, kind, impl, rng, rec, idx):
             margs = tuple(gen.materialize(a, fam, impl, serial, True)
                           for a in args)
             call(serial, op, margs)
-        want = [serial.contents()]
+        want = [ncontents(serial.contents(), is_mapping)]
         # (2) both net change sets applied to the base (disjoint keys)
         bd, Bd, Cd = as_dict(base), as_dict(B['model']), as_dict(C['model'])
         tb, tc = net_changes(bd, Bd), net_changes(bd, Cd)
@@ -448,7 +507,10 @@ def run_schedule(fam, kind, impl, rng, rec, idx):
         except minidb.ConflictError as e:
             outcome3 = 'read-conflict' if e.kind == 'read' else \
                 'conflict:%s' % (e.reason,)
-            if e.kind != 'read' and e.reason is None:
+            if e.kind != 'read' and e.reason is None and pv_objs and \
+                    'PersistentReferences' in str(e.detail):
+                outcome3 = 'conflict:ref-compare'
+            elif e.kind != 'read' and e.reason is None:
                 rec.violation('conflict-resolution-raised-other',
                               detail=brief(e.detail, 300),
                               e_ops=brief(E['ops']), **desc)
@@ -461,7 +523,7 @@ def run_schedule(fam, kind, impl, rng, rec, idx):
         info3 = dict(info, e_ops=brief(E['ops'], 300), outcome3=outcome3,
                      committed_before=brief(committed, 300))
         try:
-            got3 = harness.contents(f, is_mapping)
+            got3 = ncontents(harness.contents(f, is_mapping), is_mapping)
             serrs3, _w3 = hist.structural_checks(f, is_mapping, sizes=False)
         except Exception as e:
             rec.violation('stored-tree-damaged', errors=[(
@@ -483,7 +545,7 @@ def run_schedule(fam, kind, impl, rng, rec, idx):
                 margs = tuple(gen.materialize(a_, fam, impl, serial, True)
                               for a_ in args)
                 call(serial, op, margs)
-            want3 = [serial.contents()]
+            want3 = [ncontents(serial.contents(), is_mapping)]
             bd, Ed = as_dict(base), as_dict(E['model'])
             te = net_changes(bd, Ed)
             tprev = net_changes(bd, cdict)
